@@ -51,12 +51,13 @@ func run(c *vlib.Ctx) {
 		}
 		c.Cases(stratum, total, fn)
 	}
-	cases("seq", c.N(720, 16000), seqCase(seqMode{}))
-	cases("seq-enum", c.N(400, 8000), seqCase(seqMode{enumFaults: true}))
-	cases("seq-enum-silentstop", c.N(120, 2000), seqCase(seqMode{enumFaults: true, silentStop: true}))
-	cases("seq-wfault", c.N(280, 6000), seqCase(seqMode{writeFaults: true}))
-	cases("conc-tq", c.N(80, 2000), concCase(concMode{name: "conc-tq"}))
+	// (order = order of the evidence samples: one concurrent and two faulted strata first)
 	cases("conc-bloom", c.N(200, 5000), concCase(concMode{name: "conc-bloom", bloom: true}))
+	cases("seq-enum", c.N(400, 8000), seqCase(seqMode{enumFaults: true}))
+	cases("seq-wfault", c.N(280, 6000), seqCase(seqMode{writeFaults: true}))
+	cases("seq", c.N(720, 16000), seqCase(seqMode{}))
+	cases("seq-enum-silentstop", c.N(120, 2000), seqCase(seqMode{enumFaults: true, silentStop: true}))
+	cases("conc-tq", c.N(80, 2000), concCase(concMode{name: "conc-tq"}))
 	cases("conc-hammer", c.N(24, 240), concCase(concMode{name: "conc-hammer", bloom: true, hammer: true}))
 	cases("config", 6, configCase)
 }
